@@ -157,7 +157,7 @@ func runC17(c *Ctx) {
 			return false
 		}
 		isCtxDone := func(pth *upath, v ssa.Value) bool {
-			cl, ok := strip(pth.resolve(strip(v))).(*ssa.Call)
+			cl, ok := derefLocal(strip(pth.resolve(strip(v)))).(*ssa.Call)
 			return ok && cl.Call.IsInvoke() && cl.Call.Method.Name() == "Done" && cl.Call.Value.Type().String() == "context.Context"
 		}
 		isConnVal := func(pth *upath, v ssa.Value) bool {
@@ -577,4 +577,48 @@ func isFixedPast(p *Prog, v ssa.Value) bool {
 		}
 	}
 	return okInit && !bad
+}
+
+// selCaseOnPathAt: like selCaseOnPath for the occurrence of the select at index idx of the path (a helper containing
+// the select may be inlined several times): the first test of that select's case index after idx decides.
+func selCaseOnPathAt(p *upath, sel *ssa.Select, idx int) int {
+	ci := 0
+	for j, in := range p.Instrs {
+		iff, isIf := in.(*ssa.If)
+		if !isIf {
+			if j > idx && in == ssa.Instruction(sel) {
+				return -1 // the next occurrence: this one was not tested
+			}
+			continue
+		}
+		my := ci
+		ci++
+		if j <= idx || my >= len(p.Conds) {
+			continue
+		}
+		ft := p.Conds[my]
+		if ft.If != iff {
+			continue
+		}
+		b, ok := ft.Cond.(*ssa.BinOp)
+		if !ok || b.Op != token.EQL {
+			continue
+		}
+		ex, ok := origin(b.X).(*ssa.Extract)
+		if !ok || ex.Index != 0 || !sameOrigin(ex.Tuple, ssa.Value(sel)) {
+			continue
+		}
+		k, ok := constInt(b.Y)
+		if !ok {
+			continue
+		}
+		if ft.Val {
+			return int(k)
+		}
+		// index != k: keep looking (a chain of tests), unless this was the only case
+		if len(sel.States) == 1 {
+			return -1
+		}
+	}
+	return -1
 }
